@@ -175,7 +175,10 @@ template <typename NumericType>
   std::ostringstream stream;
   if (absolute < 1.0) {
     // Interval: [0, 1[
-    if (absolute < 0.001) {
+    // The thresholds 0.001, 0.01, and 0.1 are not exactly representable. Each is compared as the
+    // smallest extended-precision value that is not less than it, so that the comparison gives the
+    // same result as a comparison with the exact decimal value for every floating-point type.
+    if (absolute < 0x8.3126e978d4fdf3cp-13L) {
       // Interval: [0, 0.001[
       if (absolute == 0.0) {
         // Interval: [0, 0]
@@ -187,9 +190,9 @@ template <typename NumericType>
       }
     } else {
       // Interval: [0.001, 1[
-      if (absolute < 0.1) {
+      if (absolute < 0xc.ccccccccccccccdp-7L) {
         // Interval: [0.001, 0.1[
-        if (absolute < 0.01) {
+        if (absolute < 0xa.3d70a3d70a3d70bp-10L) {
           // Interval: [0.001, 0.01[
           stream << std::fixed
                  << std::setprecision(std::numeric_limits<NumericType>::max_digits10 + 3) << value;
